@@ -2,6 +2,7 @@ import XcpModel.Pool
 import XcpModel.ParfilePool
 import XcpModel.Handle
 import XcpProofs.PoolInv
+import XcpProofs.PoolFInv
 import XcpProofs.ParfileInv
 /-! # C18 — `--fsync` flushes every destination file after its last write
 
@@ -143,5 +144,11 @@ example :
       = some ([.opened 0, .opened 1, .write 0 0, .write 1 0, .finalise 1, .fsync 1, .closed 1, .write 0 1,
                .finalise 0, .fsync 0, .closed 0], true) := by
   decide
+
+/-- also with failing block jobs and a dispatcher that stops with an error: no write of a handle follows its finalisation
+or its fsync, on any schedule (`Xcp.PoolF`) -/
+theorem parblock_writes_before_finalise_with_failures (files : List Nat) (cap workers : Nat) (fs : Bool) (s : PoolF.St)
+    (h : PoolF.Reachable files cap workers fs s) : PoolF.writesBeforeFinalise s.log = true :=
+  PoolF.writes_before_finalise files cap workers fs s h
 
 end Xcp.C18
